@@ -8,10 +8,13 @@ PROP = {'engine': 'c01',
          '(valid, failing-but-included, reverting, box-wrapped, template and random bytecode) interleaved with must-discard candidates; '
          "each block is executed by: the honest miner path with all candidates, twice more on fresh managers, another node's miner with "
          'the same survivors but a different discard set, survivors only, and four validators (one validate-only, one that mined and threw '
-         'away other candidate sets, one reopened from disk); distinct = distinct (deputy count, height, candidate kind sequence); '
+         'away other candidate sets, one reopened from disk); every fourth scenario is followed by a vote-flow scenario (two candidates, up to 8 voters funded with 30M LEMO; '
+         'per block 2..4 transfers of 50..97 % of the payer\'s balance between voters, payers and receivers (re-)voting behind their transfer in the same block) aimed at the '
+         'end-of-block pass that walks a hash map of balance changes; distinct = distinct (deputy count, height, candidate kind sequence); '
          'non-trivial = at least one discarded candidate and at least two tx types included',
  'assumptions': ['stable pointers of all nodes are aligned at reward heights (refund list is read from the stable candidate file)',
                  "snapshot-height blocks carry no transactions (vote changes inside a snapshot block are C10's known finding)",
                  'block time is crafted in the past; the only wall-clock input of validation is time <= now+1'],
  'min_cases': {'quick': 200, 'thorough': 5000},
+ 'min_stats': {'quick': {'voteflow_blocks': 60, 'executions': 3000}},
  'timeout_s': {'quick': 900, 'thorough': 10800}}
